@@ -37,6 +37,11 @@ def plan(seed, subbatch):
         faults, burst, p_empty, kinds = planlib.swarm_faults(
             cfg, base_s, tf_s, halt_buckets=(5, 40), force=[cfg.choice(("drop", "halt"))])
         recoll = cfg.randint(1, 3) if cfg.random() < 0.4 else 0
+        if cfg.random() < 0.12:
+            # one very long outage in a short stream: several hundred inserted candles
+            per_bucket = max(1, tf_s // base_s)
+            n = cfg.randint(4, 25)
+            faults = {"halt": {"p": 0.12, "min": 300 * per_bucket, "max": 1200 * per_bucket}}
     start = world.pick_start(cfg, base_s, tf_s)
     op_rng = sub_rng(seed, "operator")
     extras = [(op_rng.random(), {"op": "recollapse", "times": op_rng.randint(1, 2)}) for _ in range(recoll)]
